@@ -28,41 +28,64 @@ THEOREMS = [
     'C15.atol_resolution', 'C15.point_atol_passthrough', 'C15.within_iff', 'C15.within_tie', 'C15.within_zero_tol',
     'C15.within_mono', 'C15.zero_tol_offsite', 'C15.symbols_masses_kept',
     'C15.resolve_pos_iff_unique', 'C15.interstitial_ok_iff_free',
+    'C15.guardAtype_ok', 'C15.atol_none_is_default', 'C15.refuse_bad_atype',
+    'C15.dvect_scale', 'C15.within_scale', 'C15.search_scale_invariant',
 ]
 PARTIAL = {
     'periodic image beyond the adjacent cells': 'pos_eq_index_selection is proved for a position that is the atom '
     'shifted by n in {-1,0,1}^3 cell vectors along periodic directions, which is exactly the candidate set of '
-    'dvect_c; a position two or more cells away is refused by the code (model and implementation agree) — the '
-    'minimum-image range of dvect is C02\'s subject',
+    'dvect_c; a position two or more cells away is refused by the code (model and implementation agree) - also in a '
+    'strongly sheared cell where such a translation (e.g. b - 2a) is SHORTER than a cell edge, i.e. the geometrically '
+    'nearest image is then not found (observed: vects [[4,0,0],[10,4,0],[0,0,4]], pos = atom - 2a + b, |b - 2a| = 4.47: '
+    'refused). The minimum-image range of dvect is C02\'s subject',
 }
-RULE = ('random systems: 1-8 atoms on a 1/8 grid of box-relative coordinates in cubic / orthorhombic / tilted '
-        '(triangular) / general triclinic dyadic cells with zero or non-zero origin, any pbc, 1-3 atom types with gaps, '
-        'symbols shorter/equal/longer than natypes, per-type masses (absent / partial / with missing entries), extra '
-        'properties of float/int/bool dtype and trailing shapes (), (3,), (3,3), (2,2,2), with or without an existing old_id '
-        '(placed before or after the other properties), sometimes a close pair of atoms; histories of 1-4 insertions; each '
-        'insertion: any of the four generators, called directly or through point() (keywords or the documented positional '
-        'order, ptd_type omitted for its default), site by index (every value in [-n-2, n+1], Python or numpy integer) / '
-        'Cartesian pos / box-relative pos / both / neither, pos = atom position + optional image shift (also along '
-        'non-periodic directions and two cells away) + an offset chosen INDEPENDENTLY of the tolerance (none, along one '
-        'axis, along a face diagonal (3,4,0), along a body diagonal (1,2,2)/(2,3,6)/(1,4,8); exact length 2^-12 .. 1, on '
-        'both sides of the default 0.01), and a tolerance chosen around that offset: None (default), 0, 1e-12, exactly the '
-        'offset (tie), offset -/+ 2^-12, half, double, negative, 100 (ambiguous), 1.25 x distance to another atom '
-        '(ambiguous), given as float / int / numpy.float64 / numpy.float32 / numpy.int64; a systematic sweep runs every '
-        'tolerance candidate for every generator x offset kind on independent requests; kwargs any subset of atype / '
-        'old_id / the extra properties / an unknown key, dispatcher assertion combinations and an invalid ptd_type. '
-        'distinct = distinct (system line, op line); non-trivial = the insertion is accepted or refused for a reason other '
-        'than the argument-combination checks')
+RULE = ('random systems: 1-8 atoms on a 1/8 grid of box-relative coordinates (sometimes up to a cell outside the box, a hair '
+        '2^-7 / 2^-9 off faces, an atom exactly at the cell origin) in cubic / orthorhombic / tilted / general triclinic / '
+        'STRONGLY SHEARED non-reduced (tilts 1.25-2.75 edges) / flat (one edge 1/4 .. 1) dyadic cells and 3-4-5-rotated cells '
+        '(off the binary grid), in any setting (Cartesian axes permuted and mirrored, cell vectors relabelled: every sign '
+        'pattern, left-handed), origin zero / small / far away (+-2^10..2^14), any pbc, the whole geometry scaled by 2^k with k in '
+        '+-{10,14,17,20,24,27,33,40,100,300,480}; 1-3 atom types with gaps, symbols shorter/equal/longer than natypes, per-type '
+        'masses (absent / partial / with missing entries), extra properties of float/int/bool/fixed-width-string dtype and '
+        'per-atom shapes (), (1,), (1,1), (2,), (3,), (3,3), (2,2,2), named normally or by substrings of the reserved keys '
+        "('p','os','o','old','id','type',...) or by the generators' own parameter names ('scale','atol','ptd_id','db_vect',"
+        "'system','ptd_type': never passable through **kwargs), with or without an existing old_id (before or after the other "
+        'properties), sometimes a close pair of atoms; histories of 1-4 and 5/7/10 insertions; each insertion: any of the four '
+        'generators, directly or through point() (keywords or the documented positional order, ptd_type omitted for its '
+        'default), site by index (every value in [-n-2, n+1]; Python int, numpy int8/int32/int64/intp) / Cartesian pos / '
+        'box-relative pos / both / neither, pos = atom position + optional lattice translation (adjacent cells, also along '
+        'non-periodic directions, and beyond: components up to +-2) + an offset chosen INDEPENDENTLY of the tolerance (none, '
+        'along one axis, along a face diagonal (3,4,0), along a body diagonal (1,2,2)/(2,3,6)/(1,4,8); exact length 2^-12 .. 1 '
+        'times the scale), the all-zero position of an atom at the origin, and a tolerance chosen around that offset: None '
+        '(default), 0, 1e-12, exactly the offset (tie), offset -/+ 2^-12, one ulp below / above, half, double, negative, 100 '
+        '(ambiguous), 1.25 x distance to another atom (ambiguous), as float / int / numpy.float64 / numpy.float32 / '
+        'numpy.int64 (explicit tolerances scale with 2^k, the default does not); working units: angstrom (default), nm, pm, '
+        'um, SI, eV->J (reset around the call); the FORM of pos / db_vect: float64 array, list, tuple, float32 array, '
+        'int list / int64 / int32 array (integer values), read-only array, strided view, (1,3) row, list of mixed '
+        'int / float / numpy.float32 / numpy.float64 scalars; scale as bool / int / numpy.bool_; kwargs any subset of atype '
+        '(1-4, and 0 / -1: refused) / old_id (fresh, 0, an id already present) / the extra properties (arrays, lists, tuples, '
+        "nested lists, Python / numpy scalars; a quarter of them all-zero / False / '') / an unknown key; db_vect zero; "
+        'dispatcher assertion combinations and an invalid ptd_type; non-integer index objects (2.0, 1.5, -0.5, numpy.float64, '
+        "'1'). A systematic sweep runs every tolerance candidate for every generator x offset kind x (scale 2^k) x units on "
+        'independent requests. Same-object sequences: 3-9 requests to ONE input object with in-place edits of it in between '
+        '(atom moved / two atoms swapped / one atom put where another was / pbc / atype / property value / box origin), the '
+        'same request often repeated after the edit. Repeat probe (15% of accepted requests): the identical request again, '
+        'its result overwritten in place, a third call. distinct = distinct (system line, op line, units); non-trivial = the '
+        'insertion is accepted or refused for a reason other than the argument-combination checks')
 ASSUMPTIONS = [
-    'IEEE double arithmetic of numpy/Cython is exact on the dyadic inputs generated (<= 12 fractional bits, |x| < 2^8): '
-    'site selection and positions are compared exactly there; with box-relative input in a cell whose inverse is not dyadic '
-    'the new positions are compared to 1e-12 relative and cases whose distance is within 1e-9 of atol are exempt',
+    'IEEE double arithmetic of numpy/Cython is exact on the binary-grid inputs generated (scale-free test: with g the finest bit '
+    'of any value, every value < 2^40 g and every cell-sized quantity < 2^21 g, so sums and sums of squares are exact): site '
+    'selection and positions are compared exactly there; off the grid (rotated cells, box-relative input in a cell whose inverse '
+    'is not dyadic) the new positions are compared to 1e-12 of the length scale and cases whose distance is within 1e-9 '
+    '(relative) of atol, or an exact hit judged with a zero / negative tolerance, are exempt',
     'np.linalg.norm / np.isclose(d, 0, atol) decide d == 0 or d <= atol; modelled on squares (d2 = 0 or (0 <= atol and d2 <= atol^2)); '
-    'on the dyadic grid sqrt is monotone and separated by >= 2^-33 relative, so the comparison is exact also at |d| = atol',
-    'the default tolerance uc.set_in_units(0.01, "angstrom") is the double 0.01 (atomman working units: angstrom = 1); it is a '
-    'constant of the driver and, independently, of the oracle',
+    'on the binary grid a distance whose square is a perfect dyadic square is returned exactly by sqrt, so the comparison is exact '
+    'also at |d| = atol and one ulp from it; squares stay in the double range for |k| <= 480',
+    'the default tolerance uc.set_in_units(0.01, "angstrom") is 0.01 x (1 angstrom in the working length unit); the model takes it '
+    'as a parameter (driver command dflt), the oracle computes it as an exact rational independently of atomman.unitconvert',
     'numpy fancy indexing arr[index] and deepcopy copy the selected rows (modelled by gather)',
-    'kwargs values are given in the dtype and trailing shape of the property (numpy casting/broadcasting of the assignment '
-    'view[prop][-1] = value is not modelled)',
+    'kwargs values are given in the dtype and per-atom shape of the property, in any container form (numpy casting of the '
+    'assignment view[prop][-1] = value is not modelled); strings travel as integer codes (0 = the empty string)',
+    'a (1,3) position is taken like a (3,) one (what the code does; the documentation says "array-like")',
 ]
 TRUSTED = ['numpy indexing/assignment in the implementation run', 'shared Lean model of dvect_c (Atomman/Dvect.lean, tied to the '
            'Cython source by C02\'s correspondence and again here through site selection)']
@@ -664,6 +687,8 @@ def _gen_op(rng, system, k=0):
             op['note'].append('near-atom')
         else:
             rel = [Fraction(rng.randint(-4, 36), 32) for _ in range(3)]
+            if rng.random() < 0.06:
+                rel = [Fraction(0)] * 3                       # the cell origin itself (free or occupied)
             if op['scale']:
                 op['pos'] = [float(x) for x in rel]
             else:
@@ -675,7 +700,17 @@ def _gen_op(rng, system, k=0):
             if -n <= op['ptd_id'] < n:
                 targets.append(op['ptd_id'] % n)
         if mode in ('pos', 'both'):
-            op['pos'] = site_pos(rng.randrange(n))
+            corner = [i for i in range(n) if all(Fraction(x) == o for x, o in zip(system.atoms.pos[i].tolist(), O))]
+            if corner and rng.random() < 0.5:
+                # the atom at the cell origin asked for as box-relative [0, 0, 0] (Cartesian too when the origin is
+                # the coordinate origin): an all-zero position is a position, not a missing argument
+                targets.append(corner[0])
+                op['scale'] = True if any(O) else rng.random() < 0.5
+                op['pos'] = [0.0, 0.0, 0.0]
+                op['atol'], op['atol_type'], tl = _gen_atol(rng, Fraction(0), k)
+                op['note'] += ['zero-pos', 'offset:on-site', 'atol:' + tl]
+            else:
+                op['pos'] = site_pos(rng.randrange(n))
         if fn == 'substitutional' and targets and rng.random() < 0.7 and op['kw'].get('atype', 1) >= 1:
             # mostly a real substitution (a type the atom does not have); the rest exercises the refusal
             cur = int(system.atoms.atype[targets[0]])
@@ -1870,16 +1905,21 @@ def replay(ctx, payload):
 MANIFEST = {
     'text': 'Lean 4 model of defect/point.py on lists of atom records (site search through the shared dvect loops, index '
             'normalisation, the index lists as coded, old_id created only when absent, per-property assignment, dumbbell '
-            '+-db_vect with scale converting it as a vector, the dispatcher). Proved for every ordered field: the four '
+            '+-db_vect with scale converting it as a vector, the closing refusal of a defect-atom type below 1, the dispatcher). '
+            'Proved for every ordered field: the four '
             'generators change exactly the documented atoms (others identical, in order; defect atoms last with the requested '
             'values), the cell is kept, old_id is the index in the input and composes over ANY history of insertions '
             '(induction), selection by Cartesian / box-relative position (also through an adjacent periodic image) equals '
-            'selection by index, each refusal, the tolerance rule (atol=None and only None is the default, the dispatcher passes it '
-            'through, closed ball, monotone, zero/negative tolerance = exact hit only), symbols and per-type masses kept and '
-            'padded. Tied to the code by a differential run of short insertion histories on '
-            'random systems; the clauses are evaluated on the real code by an independent Fraction oracle.',
+            'selection by index, each refusal, the tolerance rule (atol=None and only None is the default, resolved in one place, '
+            'the dispatcher passes it through, closed ball, monotone, zero/negative tolerance = exact hit only), the site search '
+            'contains no absolute length (scaling cell, atoms, position and tolerance by c > 0 changes no decision), symbols '
+            'and per-type masses kept and padded. Tied to the code by a differential run of insertion histories and of '
+            'same-object sequences with in-place edits on random systems (cells of every shape and setting, scaled by 2^k, '
+            'every argument form, other working units); the clauses - including untouched input, fresh outputs, repeatability - '
+            'are evaluated on the real code by an independent Fraction oracle.',
     'note': 'Trusted: Lean kernel + propext/Classical.choice/Quot.sound; the correspondence harness; numpy indexing and '
-            'assignment. Images beyond the adjacent cells are outside dvect\'s candidate set (refused by model and code alike). '
+            'assignment. Images beyond the adjacent cells are outside dvect\'s candidate set (refused by model and code alike, '
+            'also where such an image is the nearest one in a strongly sheared cell). '
             'numpy casting/broadcasting of kwargs values, interstitial without pos and dumbbell without db_vect are not modelled.',
     'technique': 'Lean 4 theorems over a hand-written model + differential correspondence + clause oracle on the real code',
 }
